@@ -6,7 +6,7 @@ VERIF = os.path.dirname(os.path.dirname(os.path.abspath(__file__)))
 CHECKS = {
  "C01": dict(cat="exploration", design="DESIGN.md §4 C01",
    technique="stateful model-based property testing (rapid) against a sorted-map model; small-scope exhaustive enumeration in the thorough tier",
-   text="Generated histories (insert/update/delete/lookup/iterate/clone/persist/reload, every key and value type, bf 2-64, both formats, all cache kinds) are applied to mast and to a sorted-map model and compared after every step; thorough adds every insert/delete word of length <=5 over 4 user keys x 81 layer tables. Held-on-everything-explored, not a proof. One configuration in ten has a dense key universe of 150-900 keys with bulk inserts/deletes (height 2 at the default branch factor 16, up to 6 at bf 3).",
+   text="Generated histories (insert/update/delete/lookup/iterate/clone/persist/reload, every key and value type, bf 2-64, both formats, all cache kinds) are applied to mast and to a sorted-map model and compared after every step; thorough adds every insert/delete word of length <=5 over 4 user keys x 81 layer tables. Held-on-everything-explored, not a proof. One configuration in ten has a dense key universe of 150-900 keys with bulk inserts/deletes (height 2 at the default branch factor 16, up to 6 at bf 3). One configuration in eight uses the reverse of the default key order (a custom KeyCompare), and the key kinds include int32 and uint16 (ordered by their marshaled text).",
    note="Trusted: Go stdlib (encoding/json as the configured default marshaler), rapid, the harness' own model. Nil keys/values not generated."),
 
  "C02": dict(cat="exploration", design="DESIGN.md §4 C02",
@@ -15,11 +15,11 @@ CHECKS = {
    note="A failure of the operated tree itself aborts the case (C01's subject). Held cursors read with Min/Forward/Get."),
  "C04": dict(cat="exploration", design="DESIGN.md §4 C04",
    technique="metamorphic + differential property testing: two generated histories to the same entry set vs. an independently built reference MST; small-scope exhaustive enumeration (thorough)",
-   text="Two independent histories (separate stores) are driven to the same generated entry set; both final roots and every intermediate persisted root must equal {Link,Height,Size} of the unique MST built by the harness' own reference (own BLAKE2b, encoder, layer functions, height rule). Thorough adds all insertion orders of n+2<=6 user keys x all layer tables in {0,1,2}^(n+2) x bf in {2,3} followed by two deletes.",
+   text="Two independent histories (separate stores) are driven to the same generated entry set; both final roots and every intermediate persisted root must equal {Link,Height,Size} of the unique MST built by the harness' own reference (own BLAKE2b, encoder, layer functions, height rule). Thorough adds all insertion orders of n+2<=6 user keys x all layer tables in {0,1,2}^(n+2) x bf in {2,3} followed by two deletes. Both tiers enumerate a size-threshold family: branch factors 2-20, 32, 64 x every power bf^h <= 1300, a tree of bf^h+3 consecutive keys taken down to bf^h entries one delete at a time (and back up), persisted at every size.",
    note="Trusted: harness/ref (pinned by C14's golden vectors), encoding/json. Custom marshaler only with the binary format."),
  "C05": dict(cat="exploration", design="DESIGN.md §4 C05",
-   technique="round-trip property testing (persist -> load, Root via JSON) inside model-based histories",
-   text="At every persist of generated histories (8 key types x 4 value types x 2 formats x default/custom codec x 7 cache kinds) the returned root is loaded four ways (direct / via JSON x shared cache / no cache) and compared with the model entry by entry plus Size, Height, BranchFactor and NodeFormat; histories continue on reloaded trees.",
+   technique="round-trip property testing (persist -> load, Root via JSON) inside model-based histories; native coverage-guided fuzzing of literal keys/values in the thorough tier",
+   text="At every persist of generated histories (8 key types x 4 value types x 2 formats x default/custom codec x 7 cache kinds) the returned root is loaded four ways (direct / via JSON x shared cache / no cache) and compared with the model entry by entry plus Size, Height, BranchFactor and NodeFormat; histories continue on reloaded trees. Thorough adds a native coverage-guided fuzz target over literal keys and values (strings when valid UTF-8, else byte slices; corpus of lengths around the length-prefix boundaries) that checks stored bytes, names, the reference root and the reload.",
    note="Only types whose encoding round-trips are generated (the property's own restriction)."),
  "C06": dict(cat="exploration", design="DESIGN.md §4 C06",
    technique="model-based differential property testing: DiffIter / StartDiff+NextEntry vs. the difference of two model maps",
@@ -80,7 +80,7 @@ CHECKS = {
    note="A name is always re-written with the same bytes."),
  "C19": dict(cat="exploration", design="DESIGN.md §4 C19",
    technique="mutation-based property testing with an independent classifier oracle (+ native coverage-guided fuzzing of the top-node bytes in the thorough tier)",
-   text="Valid persisted roots are perturbed (format, missing/truncated/bit-flipped/random/crafted top node with mismatched counts, swapped/duplicated/undecodable keys, huge counts, reversed/constant KeyCompare, raised height, changed branch factor); an independent classifier decides from bytes+root+loader configuration whether the root is bad by the property's list; bad => LoadMast must return an error (no panic, no crash, no tree).",
+   text="Valid persisted roots are perturbed (format, missing/truncated/bit-flipped/random/crafted top node with mismatched counts, swapped/duplicated/undecodable keys, huge counts, reversed/constant KeyCompare, raised height, changed branch factor); an independent classifier decides from bytes+root+loader configuration whether the root is bad by the property's list; bad => LoadMast must return an error (no panic, no crash, no tree). Further perturbations: a blank link, and a loader order in which two adjacent keys of the top node are exchanged (also through the writer's warm cache).",
    note="One direction only; unclassified perturbations are not judged."),
 }
 
